@@ -12,13 +12,15 @@ duplicate bodies / ids allowed) to `(path, offset)` such that the file holds `bo
 that offset, the offset is a line start, the record lies inside the fsynced prefix (gzip: of the
 payload of closed members), and the byte ranges of different occurrences are pairwise disjoint.
 
-* `fin_owns_line_this_tree` — the statement about the checked tree (F46 85f4c48 + F47 efaf20c committed; shape
-  parameters computed by `Tie.ToolsToFile`: `oneWrite`, `sealsTail` decided `true`, `sealReadWarns` = which of the two
-  accepted `sealTornTail` skeletons the tree has); on the F47b shape it carries the hypothesis `ReadsOk io`;
+* `fin_owns_line_this_tree_partial` — the statement about the checked tree (F46 85f4c48 + F47 efaf20c + F47b 73f7348
+  committed; shape parameters computed by `Tie.ToolsToFile`: `oneWrite`, `sealsTail`, `sealReadWarns`, all three decided
+  `true` — only the F47b skeleton of `sealTornTail` is accepted); it carries the hypothesis `ReadsOk io` (every existing
+  file the tool re-opens for appending is readable by it), forced: `fin_owns_line_F47b_full_false`;
 * `fin_owns_line_fixed`  — the tree with fix F47 (`Cfg.sealsTail`): every configuration, initial directory, event list
   (incl. foreign files and whole-record appends of a second writer), fault schedule; hypothesis guarded by the shape:
-  `c.sealReadWarns = true → ReadsOk io`. Corollaries `fin_owns_line_committed` (committed F47: unconditional — an
-  unreadable file is a fatal exit) and `fin_owns_line_F47b_partial` (F47b: every re-opened file is readable).
+  `c.sealReadWarns = true → ReadsOk io`. Corollaries `fin_owns_line_F47b_partial` (F47b, this tree: every re-opened file
+  is readable) and `fin_owns_line_committed` (history: the shape of F47 alone, no longer accepted — unconditional there,
+  an unreadable file was a fatal exit, which is what F47b repaired).
 * `fin_owns_line_F47b_full_false` — under F47b the unconditional statement is **false** (witness: unreadable torn file
   `"A"`, message `"B"` → `"AB\n"`, `B` FINished); `fin_owns_line_unreadable_partial` — what still holds for unreadable files.
 * `fin_owns_line_excl`   — the same without the fix whenever files are opened with O_EXCL (gzip / rotate-interval).
@@ -350,33 +352,38 @@ def treeCfg (c : Cfg) : Cfg :=
   { c with oneWrite := Nsq.Tie.ToolsToFile.routerOneWrite, sealsTail := Nsq.Tie.ToolsToFile.updateFileSeals,
            sealReadWarns := Nsq.Tie.ToolsToFile.sealReadWarns }
 
-/-- **THIS tree** (F46 = /repo 85f4c48 and F47 = /repo efaf20c are committed; audit B12): the ties accept only the fixed
-skeletons of `router()` / `updateFile()` and decide both Bools `true`; `sealTornTail` is the committed function or the
-one of the follow-up F47b (`Tie.ToolsToFile.sealTornTail_known_shapes`), `treeCfg.sealReadWarns` says which. For every
-option set, every initial directory (torn tails included), every fault schedule and every event list in which other
-writers append whole records, every FINished message owns a line — on the committed shape unconditionally (the
-hypothesis below is vacuous there); **on the F47b shape under the hypothesis that
-every existing file the tool re-opens is readable by it** (`ReadsOk io`; refuted without: `fin_owns_line_F47b_full_false`;
-for unreadable files that are empty / newline-terminated: `fin_owns_line_unreadable_partial`).
-A tree that reverts F46 or F47 fails `tree_one_write` / `tree_seals_tail` and this theorem with it.
-AFTER F47b IS COMMITTED: the hypothesis becomes plain `ReadsOk io` (use `Tie.ToolsToFile.tree_seal_read_warns`). -/
-theorem fin_owns_line_this_tree (c : Cfg) (io : Nat → Fault)
-    (hreadable : (treeCfg c).sealReadWarns = true → ReadsOk io) (fs0 : FS) (evs : List (Ev × Bool))
+/-- **THIS tree** (F46 = /repo 85f4c48, F47 = /repo efaf20c and F47b = /repo 73f7348 are committed; audit B12): the ties
+accept only the fixed skeletons of `router()` / `updateFile()` / `sealTornTail()` and decide all three Bools `true`
+(`tree_one_write`, `tree_seals_tail`, `tree_seal_read_warns`). For every option set, every initial directory (torn tails
+included), every event list in which other writers append whole records, and every fault schedule **in which every
+existing file the tool re-opens for appending is readable by it** (`ReadsOk io`), every FINished message owns a line.
+*Partial*: the hypothesis is forced — without it the statement is false on this tree (`fin_owns_line_F47b_full_false`:
+unreadable torn `"A"` + message `"B"` → `"AB\n"`, `B` FINished, the operator is warned); for unreadable files that are
+empty / newline-terminated: `fin_owns_line_unreadable_partial`.
+A tree that reverts F46, F47 or F47b fails `tree_one_write` / `tree_seals_tail` / `tree_seal_read_warns` and this theorem
+with it. -/
+theorem fin_owns_line_this_tree_partial (c : Cfg) (io : Nat → Fault)
+    (hreadable : ReadsOk io) (fs0 : FS) (evs : List (Ev × Bool))
     (henv : ∀ e ∈ evs, match e.1 with
       | .extAppend _ d => nlEnded d
       | _ => True) :
     LinesSafe (run (treeCfg c) io (init fs0) evs).fs (run (treeCfg c) io (init fs0) evs).finished :=
   shared_file_lines_fixed (treeCfg c) Nsq.Tie.ToolsToFile.tree_one_write Nsq.Tie.ToolsToFile.tree_seals_tail
-    io hreadable fs0 evs henv
+    io (fun _ => hreadable) fs0 evs henv
 
 /-! ### non-vacuity -/
 
-/-- the tree's configuration of the plain-append options is the fully fixed one, in one of the two accepted shapes -/
-example : treeCfg cfgAppend = cfgCommitted ∨ treeCfg cfgAppend = cfgWarns := by
-  rcases Nsq.Tie.ToolsToFile.sealTornTail_known_shapes with ⟨h, _⟩ | ⟨h, _⟩
-  · left; simp [treeCfg, cfgCommitted, cfgAppend, Nsq.Tie.ToolsToFile.tree_one_write, Nsq.Tie.ToolsToFile.tree_seals_tail, h]
-  · right; simp [treeCfg, cfgWarns, cfgCommitted, cfgAppend, Nsq.Tie.ToolsToFile.tree_one_write, Nsq.Tie.ToolsToFile.tree_seals_tail, h]
-/-- the hypotheses of `fin_owns_line_this_tree` / `fin_owns_line_F47b_partial` are satisfiable (a schedule with stops and
+/-- the tree's configuration of the plain-append options is the fully fixed one, in the F47b shape -/
+example : treeCfg cfgAppend = cfgWarns := by
+  simp [treeCfg, cfgWarns, cfgCommitted, cfgAppend, Nsq.Tie.ToolsToFile.tree_one_write, Nsq.Tie.ToolsToFile.tree_seals_tail,
+    Nsq.Tie.ToolsToFile.tree_seal_read_warns]
+/-- … so the full statement is false for the tree's configuration: the hypothesis of `…_this_tree_partial` is forced -/
+example : ¬ FinOwnsLineFull (treeCfg cfgAppend) := by
+  have h : treeCfg cfgAppend = cfgWarns := by
+    simp [treeCfg, cfgWarns, cfgCommitted, cfgAppend, Nsq.Tie.ToolsToFile.tree_one_write,
+      Nsq.Tie.ToolsToFile.tree_seals_tail, Nsq.Tie.ToolsToFile.tree_seal_read_warns]
+  rw [h]; exact fin_owns_line_F47b_full_false
+/-- the hypotheses of `fin_owns_line_this_tree_partial` / `fin_owns_line_F47b_partial` are satisfiable (a schedule with stops and
 write errors but no read error) and `ReadsOk` is what the F47b witness violates -/
 example : ReadsOk noFault ∧ ReadsOk (fun k => if k = 2 then .kill else if k = 5 then .err else .ok) ∧ ¬ ReadsOk unreadable :=
   ⟨fun t => by simp [noFault], fun t => by show (if t = 2 then Fault.kill else if t = 5 then Fault.err else Fault.ok) ≠ .rdErr; (repeat' split) <;> simp, fun h => h 0 rfl⟩
